@@ -7,6 +7,13 @@ THEOREMS = [
     "GitAi.Tracker.no_panic",
     "GitAi.Tracker.witness_bad_insertion_index",
     "GitAi.Tracker.in_bounds",
+    "GitAi.Tracker.line_char_roundtrip",
+    "GitAi.Tracker.witness_roundtrip_human",
+    "GitAi.Tracker.witness_roundtrip_overlap",
+    "GitAi.Tracker.identity_update",
+    "GitAi.Tracker.identity_keeps_lines_partial",
+    "GitAi.Tracker.witness_identity_zero_length",
+    "GitAi.Tracker.witness_identity_ts_tie",
 ]
 
 
